@@ -4,6 +4,7 @@ package discovery
 
 var vEntries = map[string]interface{}{
 	"VDisc": VDisc,
+	"VDiscRun": VDiscRun,
 	"VHash": VHash,
 	"VHashDedupe": VHashDedupe,
 }
